@@ -1124,8 +1124,14 @@ impl DB {
             (wal_record, is_eof) = wal_reader.read_record()?;
         }
 
+        // A WAL with a torn tail cannot be appended to
+        let is_wal_tail_intact = wal_reader.ends_at_record_boundary().unwrap_or(false);
         let mut was_memtable_reused = false;
-        if self.options.reuse_log_files() && is_last_wal && num_compactions == 0 {
+        if self.options.reuse_log_files()
+            && is_last_wal
+            && num_compactions == 0
+            && is_wal_tail_intact
+        {
             log::info!("Reusing WAL file: {wal_path:?}.", wal_path = &wal_path);
             drop(wal_reader);
             if let Ok(wal_writer) =
